@@ -891,6 +891,14 @@ def run(ctx: Ctx, rep: Report, tier: str) -> None:
 
     classification_guards(ctx, rep, rid="R03.17")
     cover_sets_not_edited(ctx, rep)
+    # R03.23 the sets the cover tests read are computed from the two entries alone: no store outside the objects (a
+    # module-level cache of prefixes, a closure counter) feeds them (C17 R17.2) - a cache filed under an incomplete key
+    # hands one wildcard the prefixes of another
+    from .c17 import r17_2
+
+    sub172 = Report("C03")
+    r17_2(ctx, sub172)
+    rep.absorb(sub172, "R03.23")
     # R03.18 the flags the option cover test reads describe the option text the entry renders: a refused `option.line = ...`
     # changes neither (text stored before the word test = new text over the old flags; `permit tcp any any syn` is then
     # reported in the shadow of an entry that renders `... ack time-range WORK`)
